@@ -5,6 +5,7 @@ import ObiVerif.Lemmas.PcrFrag
 import ObiVerif.Lemmas.PcrGrammar
 import ObiVerif.Lemmas.PcrMore
 import ObiVerif.Lemmas.PcrEnds
+import ObiVerif.Model.PcrSeqBuf
 /-!
 # C11 — in-silico PCR returns exactly the amplicons the primers define, on either strand (property theorems)
 
@@ -1278,6 +1279,35 @@ example :
       (fun x => ((shiftAmp 10 x).idFrom, (shiftAmp 10 x).idTo)) = [(20, 30)] ∧
     (pcrLE (pieceEnds 30 (0, 20)) exPrimers ⟨0, 1, false, 2, false⟩ (seg exTpl3 0 20)).map
       (fun x => ((shiftAmp 0 x).idFrom, (shiftAmp 0 x).idTo)) = [(1, 10), (10, 20)] := by decide
+
+/-! ### batch composition: the C sequence buffer recycled from one template to the next
+
+`newApatSeq out seq circ` (`Model/PcrSeqBuf.lean`, compared with the real C structure after every `MakeApatSequence` of a
+chain — lengths, `datsiz` and every code of the buffer, left-overs included: driver op `seqbuf`) is `new_apatseq` +
+`EncodeSequence` on the structure `out` left by the previous template. -/
+
+/-- **the recycled buffer does not leak into the next template**: for every structure `out` left by earlier templates, the
+codes the automata scan (`data[begin .. min(begin + length, seqlen + circular))`) are those of the `seqData` of the current
+template — the text `findAllIndex` (hence `pcr`) is defined on.  With `ManberAll` emptying the hit stack of its pattern slot
+before it scans, this is why `_PCRSlice` is a `map` over the templates (`pcrSlice`). -/
+theorem recycled_buffer_no_leak (out : Option CSeq) (seq : Bytes) (circ : Bool) (b l : Nat) :
+    windowC (newApatSeq out seq circ) b l = window (seqData seq circ) b l :=
+  windowC_newApatSeq out seq circ b l
+
+/-- … for a whole batch: every structure of the chain `_PCRSlice` builds shows the automata the `seqData` of its own template -/
+theorem recycleChain_no_leak (circ : Bool) (out : Option CSeq) (ts : List Bytes) (b l : Nat) :
+    (recycleChain circ out ts).map (fun s => windowC s b l) = ts.map (fun t => window (seqData t circ) b l) := by
+  induction ts generalizing out with
+  | nil => rfl
+  | cons t ts ih =>
+    simp only [recycleChain, List.map_cons]
+    rw [ih, windowC_newApatSeq]
+
+/-- non-vacuity / test: a circular template of 3 symbols recycled from one of 6 keeps the 12-code buffer; the 6 codes behind
+`acgacg` are left over from `ttttttgggggg`… and are never scanned -/
+example : newApatSeq (some (newApatSeq none [116, 116, 116, 116, 103, 103] true)) [97, 99, 103] true =
+      ⟨[0, 2, 6, 0, 2, 6, 19, 19, 19, 19, 6, 6], 3, 3⟩ ∧
+    windowC ⟨[0, 2, 6, 0, 2, 6, 19, 19, 19, 19, 6, 6], 3, 3⟩ 0 100 = [0, 2, 6, 0, 2, 6] := by decide
 
 /-!
 ## what is left
